@@ -120,7 +120,7 @@ UNIT = dict(
     name="c01_transfer", mode="K", properties=["C01", "C02"],
     shim_files=["shims/common.rs", "shims/seq.rs"],
     prelude=PRELUDE,
-    use="use crate::accounts::StateWriteExt as _;",
+    use="use crate::accounts::*;",
     items=ACCOUNTS_ITEMS + [
         dict(file=ACT, path="struct Transfer", keep_derives={"Clone", "Debug"}),
         dict(file=CA, path="struct TransactionSignerAddressBytes"),
